@@ -61,7 +61,8 @@ def pair_case(args):
     from .. import audit
     from ..fixtures import c10fx as fx
 
-    kind, plan, ca, cb = args
+    kind, plan, ca, cb = args[:4]
+    how = args[4] if len(args) > 4 else "call"
     nodes = {0: fx.n0, 1: fx.n1, 2: fx.n2, 3: fx.n3}
     top = scratch_dir("c16")
     out = {"evaluations": 1, "states": 1, "transitions": 0, "traces": 1, "violations": [], "outcomes": []}
@@ -71,10 +72,18 @@ def pair_case(args):
         for which, c in (("first", ca), ("second", cb)):
             new = []
             want_val = reached(0, plan, c, seen, new, vals)
-            f = fx.n0 if c is None else fx.n0.with_context_args(real_ctx(c, fx))
+            f = fx.n0
+            if how == "local-first":
+                f = f.force_local()
+            f = f if c is None else f.with_context_args(real_ctx(c, fx))
+            if how == "then-local":  # a per-call modifier applied AFTER the context arguments were attached
+                f = f.force_local()
             audit.bodies_reset()
             try:
-                got = f(plan)
+                if how == "batch":  # the batch form of the same root call
+                    got = f.call_batch([{"plan": plan}])[0]
+                else:
+                    got = f(plan)
             except Exception as e:
                 got = "EXC:%s:%s" % (type(e).__name__, str(e)[:80])
             bodies = audit.bodies()
@@ -107,8 +116,8 @@ def pair_case(args):
                         break
             if bad:
                 edges = "+".join("inherit" if a is None else ("empty" if a == {} else "override") for a in _edges(plan))
-                sig = "%s|%s|root:%s|edges:%s|%s" % (kind, which, "none" if not c else "ctx", edges, bad[0])
-                out["violations"].append((sig, bad[1] + "\nbackend=%s plan=%s contexts=(%s, %s)" % (kind, plan, ca, cb), {"pair": [kind, plan, ca, cb]}))
+                sig = "%s|%s|root:%s|edges:%s|%s%s" % (kind, which, "none" if not c else "ctx", edges, bad[0], "|root-invoked:" + how if how != "call" else "")
+                out["violations"].append((sig, bad[1] + "\nbackend=%s plan=%s contexts=(%s, %s) root invoked: %s" % (kind, plan, ca, cb, how), {"pair": [kind, plan, ca, cb, how]}))
                 break
         out["outcomes"].append("%s|%s|%s" % (json.dumps(plan), canon(ca), canon(cb)))
     finally:
@@ -138,9 +147,11 @@ def pfc_case(args):
         if premem:  # the nested call is already memoized (under the context it would be called with)
             (fx.n2 if not c else fx.n2.with_context_args(rc))(inner_plan)
         audit.bodies_reset()
-        if where == "root":
+        if where in ("root", "root-then-local"):
             f = fx.n0.with_prevent_further_calls(True)
             f = f if c is None else f.with_context_args(rc)
+            if where == "root-then-local":
+                f = f.force_local()
             plan = [["x", 2, inner_plan]]
             want = ["n0", "exc:RuntimeError"]
         else:
@@ -170,7 +181,8 @@ def run(ctx):
     thorough = ctx.tier == "thorough"
     ctx.rule = ("chain root->mid->leaf (9 edge-override assignments) and diamond root->{mid1,mid2}->leaf (%d assignments) x ordered "
                 "pairs of root contexts from {none, {}, {k:1}, {k:2}, {k:1, j:function}} run successively on one store x {memory, "
-                "filesystem, filesystem+cache}; prevent-further-calls at root / inner call x nested call memoized or not x contexts. "
+                "filesystem, filesystem+cache}; the root also invoked with a per-call modifier (force_local) before / after the "
+                "context arguments and through call_batch; prevent-further-calls at root / inner call x nested call memoized or not x contexts. "
                 "distinct = (plan, first context, second context)." % (81 if thorough else 27))
     ctx.assumptions += ["an empty context dictionary is the same identity as no context (only non-empty context args enter the hash)"]
     tasks = []
@@ -185,8 +197,15 @@ def run(ctx):
     a = pair_case(tasks[7])
     b = pair_case(tasks[7])
     ctx.selfcheck("one case gives identical observations twice", a["violations"] == b["violations"])
+    # other ways of invoking the root: per-call modifiers before / after the context arguments, and the batch form
+    for plan in shapes(thorough):
+        if len(plan) > 1 and not thorough:
+            continue
+        for ca, cb in itertools.product(ROOT_CTX, repeat=2):
+            for how in ("then-local", "local-first", "batch"):
+                tasks.append(("fsc", plan, ca, cb, how))
     ctx.merge(pmap(pair_case, tasks, chunksize=8))
-    ptasks = [(k, w, p, c) for k in ("mem", "fs", "fsc") for w in ("root", "inner") for p in (False, True) for c in ROOT_CTX]
+    ptasks = [(k, w, p, c) for k in ("mem", "fs", "fsc") for w in ("root", "root-then-local", "inner") for p in (False, True) for c in ROOT_CTX]
     ctx.merge(pmap(pfc_case, ptasks, chunksize=4))
     ctx.extra["context_pair_cases"] = len(tasks)
     ctx.extra["prevent_further_calls_cases"] = len(ptasks)
